@@ -11,6 +11,9 @@ Proof.
   right. apply IH. lia.
 Qed.
 
+Lemma length_zseq s n : length (zseq s n) = n.
+Proof. revert s; induction n as [|n IH]; intros s; cbn [zseq length]; [reflexivity|now rewrite IH]. Qed.
+
 Lemma sweep (P : Z -> bool) (N : Z) :
   forallb P (zseq 0 (Z.to_nat N)) = true -> forall w, 0 <= w < N -> P w = true.
 Proof.
